@@ -711,6 +711,11 @@ class Table(Vector):
 				dtype = self._dtype
 			)
 
+		# nothing else is a row or column selection: refuse it instead of returning None
+		raise SerifTypeError(
+			f'Table indices must be column names, integers, slices, boolean vectors or integer vectors, not {type(key).__name__}'
+		)
+
 	def __setitem__(self, key, value):
 		"""
 		Support for 2D assignment:
